@@ -34,14 +34,20 @@ RemoveJumps == /\ sg' = RJ(sg, nn) /\ UNCHANGED nn /\ filled' = {} /\ last' = "r
 LeftValid(m, i) == CHOOSE j \in 1..(i-1) : ~m[j] /\ \A k \in (j+1)..(i-1) : m[k]
 (* slerp_nan = remove_jumps, then every NaN run is filled with the geodesic between its  *)
 (* neighbours, on the side of the LEFT neighbour (shortest-path flip of the right one)    *)
+SNsg(s, m) == LET s1 == RJ(s, m) IN [ i \in Rows |-> IF m[i] THEN s1[LeftValid(m, i)] ELSE s1[i] ]
 SlerpNan(inplace) ==
-    LET s1 == RJ(sg, nn) IN
-    /\ sg' = [ i \in Rows |-> IF nn[i] THEN s1[LeftValid(nn, i)] ELSE s1[i] ]
+    /\ sg' = SNsg(sg, nn)
     /\ nn' = [ i \in Rows |-> FALSE ]
     /\ filled' = { i \in Rows : nn[i] }
     /\ last' = "sn"
+(* slerp_nan(inplace = False) used as a PREVIEW: the caller looks at the returned rows (SNsg) and keeps *)
+(* working with the object, which is exactly as it was                                                  *)
+Preview == UNCHANGED vars
+(* a row of the live object overwritten with NaN through the array interface (a gap found later)        *)
+Poke(i) == /\ i \in 2..(N-1) /\ ~nn[i] /\ RunsOK([nn EXCEPT ![i] = TRUE])
+           /\ nn' = [nn EXCEPT ![i] = TRUE] /\ UNCHANGED sg /\ filled' = {} /\ last' = "poke"
 
-Next == RemoveJumps \/ \E ip \in BOOLEAN : SlerpNan(ip)
+Next == RemoveJumps \/ (\E ip \in BOOLEAN : SlerpNan(ip)) \/ Preview \/ \E i \in Rows : Poke(i)
 Spec == Init /\ [][Next]_vars
 
 (* ------------------------------- invariants ------------------------------- *)
@@ -58,9 +64,9 @@ NoJumpBetweenValid == last \in {"rj", "sn"} => \A i \in 2..N : (i \notin filled 
 (* (slerp_nan is NOT idempotent on signs: a jump hidden behind a gap surfaces once the gap  *)
 (* is filled -- TLC's counterexample <<-,-,-,-,-,NaN,+>> -- and the property does not ask    *)
 (* for more: the filled rows end "at the second endpoint or its antipode")                  *)
-Idempotent == [][ /\ (last' = "rj" => RJ(sg', nn') = sg')
-                  /\ \A i \in Rows : nn'[i] => nn[i] ]_vars
-ZeroGapsZeroJumps == [][ (NoNaN(nn) /\ \A i \in 2..N : sg[i] = sg[i-1]) => (sg' = sg /\ nn' = nn) ]_vars
+Idempotent == [][ last' # "poke" => /\ (last' = "rj" => RJ(sg', nn') = sg')
+                                    /\ \A i \in Rows : nn'[i] => nn[i] ]_vars
+ZeroGapsZeroJumps == [][ (last' # "poke" /\ NoNaN(nn) /\ \A i \in 2..N : sg[i] = sg[i-1]) => (sg' = sg /\ nn' = nn) ]_vars
 
 (* ------------------------- the interpolation function ------------------------- *)
 (* slerp(p, q, j/n) with p = sa r^a, q = sb r^b, |b-a| <= MaxGap+1: the j-th of n equal      *)
